@@ -301,5 +301,8 @@ func c02Harness(nA, nB int, pre bool) {
 //verif:entry property=C02 tier=quick bounds="2 goroutines: 2 ops and 1 op, each op in {Subscribe h (Once/rejecting filter flags), Unsubscribe h, Clear, Publish} over 2 handler identities; optional pre-subscribed handler; every interleaving with at most 2 preemptions" cover="quiesced" preempt=2 race=on
 func harnessC02TwoByOne() { c02Harness(2, 1, vBool()) }
 
-//verif:entry property=C02 tier=thorough bounds="2 goroutines x 2 ops each, ops as above; optional pre-subscribed handler; every interleaving with at most 3 preemptions" cover="quiesced" preempt=3 race=on
+//verif:entry property=C02 tier=thorough bounds="2 goroutines x 2 ops each, ops as above; optional pre-subscribed handler; every interleaving with at most 2 preemptions" cover="quiesced" preempt=2 race=on
 func harnessC02TwoByTwo() { c02Harness(2, 2, vBool()) }
+
+//verif:entry property=C02 tier=thorough bounds="2 goroutines: 2 ops and 1 op, ops as above; optional pre-subscribed handler; every interleaving with at most 3 preemptions" cover="quiesced" preempt=3 race=on
+func harnessC02TwoByOneDeep() { c02Harness(2, 1, vBool()) }
